@@ -469,6 +469,10 @@ pub mod private;
 #[doc(hidden)]
 pub mod value_chain;
 
+#[cfg(unimock_verif)]
+#[doc(hidden)]
+pub mod verif;
+
 #[doc(hidden)]
 pub mod polonius {
     pub use polonius_the_crab::exit_polonius as _exit;
